@@ -3,13 +3,13 @@ from . import accept, cli, provenance
 
 
 def run(ctx):
-    accept.rule_stable_unsat(ctx)
-    cli.rule_dispatch(ctx)
-    accept.rule_membership_answers(ctx)
-    accept.rule_list_quantifiers(ctx)
-    accept.rule_certificate_shapes(ctx)
-    provenance.rule_literal_provenance(ctx)
-    provenance.rule_fresh_solver_per_encoding(ctx)
+    accept.rule_stable_unsat(ctx, 'credulous')
+    cli.rule_dispatch(ctx, 'credulous')
+    accept.rule_membership_answers(ctx, 'credulous')
+    accept.rule_list_quantifiers(ctx, 'credulous')
+    accept.rule_certificate_shapes(ctx, 'credulous')
+    provenance.rule_literal_provenance(ctx, 'credulous')
+    provenance.rule_fresh_solver_per_encoding(ctx, 'credulous')
     accept.rule_stage_layering(ctx, 'credulous')
     ctx.assume("rustc's MIR and resolved callees; the tables stated in the property (DC-PR through the complete solver)")
     return (
